@@ -25,8 +25,14 @@ SPEC DECISION D19a: "exactly one NACK" is about requests held in the delay queue
    established).  A Confirmable already in flight when an established session is torn down is C06/C07's business
    (libcoap reports the first one twice: DESIGN.md §5 row 22).
 SPEC DECISION D19b: a queued Non-confirmable request is dropped silently on failure (the property names Confirmable).
-SPEC DECISION D19c: TLS over TCP is modelled only as far as the gate and the layer table go (`Proto.tls`): the
-   CSM exchange and stream reassembly are C05's; no differential run covers TLS (the simulation core is datagram-only).
+SPEC DECISION D19c: TLS over TCP (`Proto.tls`) is modelled for ONE CoAP message per TLS record (what libcoap itself
+   writes: one coap_tls_write = one gnutls_record_send); stream reassembly of a message split over records is C05's and
+   prints `!unmodelled`.  Modelled for TLS: coap_session_check_connect / coap_connect_session, coap_new_server_session,
+   coap_tls_establish, coap_tls_new_client_session / coap_tls_new_server_session, coap_tls_write, coap_tls_read,
+   coap_read_session (reliable branch), coap_session_establish / coap_session_send_csm, handle_signaling (CSM),
+   the reliable branches of coap_session_connected / coap_session_disconnected_lkd / coap_send_lkd (type forced to CON,
+   coap_client_delay_first) / coap_send_internal, coap_tls_close.  The differential run (harness/tls.c) uses real
+   loopback TCP sockets.
 -/
 namespace Coap.TlsGate
 
@@ -62,9 +68,11 @@ structure View where
 
 inductive RecRes where
   | data (v : View) | junk | zero | fatalrx | warn | err
+  | again | pull             -- TLS only: GNUTLS_E_AGAIN, GNUTLS_E_PULL_ERROR (coap_tls_read tells them apart)
   deriving DecidableEq, Repr
 
 inductive SndRes where | ok | again | fatalrx | err
+  | push | part              -- TLS only: GNUTLS_E_PUSH_ERROR / PULL_ERROR / PREMATURE_TERMINATION; fewer bytes than asked
   deriving DecidableEq, Repr
 
 /-- one answer of the TLS library -/
@@ -80,6 +88,10 @@ inductive Nack where | retries | undeliv | rst | tls | icmp | bad | tlslayer
   deriving DecidableEq, Repr
 
 inductive DEv where | closed | connected | error
+  deriving DecidableEq, Repr
+
+/-- COAP_EVENT_TCP_* / COAP_EVENT_SESSION_* (reliable transports) -/
+inductive TcpEv where | connected | closed | failed | sessConnected | sessClosed | sessFailed
   deriving DecidableEq, Repr
 
 /-- a message submitted for transmission (a `coap_queue_t` node / its PDU); `sn` is a ghost serial number -/
@@ -104,6 +116,7 @@ inductive Out where
   | rsp (tok : String) (code : Nat)                  -- response handler called
   | nack (r : Nack) (tok : Option String) (sn : Option Nat)
   | ev (e : DEv)
+  | evTcp (e : TcpEv)
   | evNew | evDel | evRtx
   | bye | alert | cookie                             -- gnutls_bye / gnutls_alert_send / gnutls_dtls_cookie_send
   | sendfail
@@ -134,6 +147,8 @@ structure Sess where
   lastConMid : Option Nat := none
   freed : Bool := false
   next : Nat := 0                     -- ghost: next serial number
+  doingFirst : Bool := false          -- session->doing_first (reliable client sessions)
+  sockOpen : Bool := true             -- coap_netif_available(session) (looked at on reliable sessions only)
   deriving DecidableEq, Repr
 
 /-- the running context of one event: session, remaining oracle answers, outputs so far, last return value -/
@@ -216,11 +231,13 @@ def freeEnv (sayBye : Bool) (c : Ctx) : Ctx :=
 def dtlsFreeSession (c : Ctx) : Ctx :=
   if c.s.tls then ((c.freeEnv true).upd fun s => { s with tls := false }).emit (.ev .closed) else c
 
-/-- `lfunc[COAP_LAYER_SESSION].l_close`: coap_dtls_close for DTLS, coap_netif_close for UDP (coap_layers.c) -/
+/-- `lfunc[COAP_LAYER_SESSION].l_close`: coap_dtls_close for DTLS, coap_tls_close for TLS (both: free the TLS object,
+then coap_netif_close), coap_netif_close for UDP (coap_layers.c) -/
 def sessionClose (c : Ctx) : Ctx :=
   match c.s.proto with
   | .udp => c
-  | _ => c.dtlsFreeSession
+  | .dtls => c.dtlsFreeSession
+  | .tls => c.dtlsFreeSession.upd fun s => { s with sockOpen := false }
 
 /-! ## coap_session.c: disconnect -/
 
@@ -234,15 +251,25 @@ def discOuts (reason : Nack) (c : Ctx) : List Out :=
   let nothing : List Out := if first.isEmpty && dq.isEmpty then [.nack reason none none] else []
   first ++ dq ++ nothing
 
+/-- coap_session_disconnected_lkd, `#if !COAP_DISABLE_TCP if (COAP_PROTO_RELIABLE(session->proto))`: the TCP / session
+events (`st0` = the session state on entry) and doing_first -/
+def relTail (st0 : SState) (c : Ctx) : Ctx :=
+  if c.s.proto = .tls then
+    let c := if c.s.sockOpen then c.emit (.evTcp (if st0 = .connecting then .failed else .closed)) else c
+    let c := if st0 ≠ .none then c.emit (.evTcp (if st0 = .established then .sessClosed else .sessFailed)) else c
+    c.upd fun s => { s with doingFirst := false }
+  else c
+
 /-- coap_session_disconnected_lkd -/
 def disconnected (reason : Nack) (c : Ctx) : Ctx :=
+  let st0 := c.s.state
   let c := { c with out := c.out ++ c.discOuts reason }
   if reason = .icmp then c else
   let c := c.upd fun s => { s with delayq := [], state := if s.proto = .udp then .established else .none, conActive := 0 }
   -- coap_cancel_session_messages
   let c := { c with out := c.out ++ (c.s.inflight.filter fun q : QMsg => q.con).map (nackOf reason) }
   let c := c.upd fun s => { s with inflight := [] }
-  c.sessionClose
+  (c.relTail st0).sessionClose
 
 /-! ## coap_net.c: the gate -/
 
@@ -261,6 +288,8 @@ def sndResult (c : Ctx) : Ctx :=
   | .again => c.setRet 0
   | .fatalrx => (c.upd fun s => { s with sentAlert := true, dtlsEvent := some .closed }).setRet (-1)
   | .err => c.setRet (-1)
+  | .push => c.setRet (-1)
+  | .part => c.setRet (-1)
 
 /-- coap_dtls_send up to the event handling (the harness logs the PDU at entry) -/
 def dtlsSendCore (m : QMsg) (ack : Bool) (c : Ctx) : Ctx :=
@@ -283,12 +312,66 @@ def sendTail (c : Ctx) : Ctx :=
 /-- coap_dtls_send -/
 def dtlsSend (m : QMsg) (ack : Bool) (c : Ctx) : Ctx := (c.dtlsSendCore m ack).sendTail
 
+/-! ### TLS over TCP: coap_tls_write, coap_session_send_csm -/
+
+/-- a CoAP-over-TCP message has no type and no message id on the wire (libcoap keeps every PDU of a reliable session
+as CON): kind C, mid 0 -/
+def _root_.Coap.TlsGate.QMsg.strmView (m : QMsg) : View := ⟨0, m.code, 0, m.tok, ""⟩
+
+/-- tail of coap_tls_write / coap_tls_read: act on session->dtls_event (CLOSED is reported by
+coap_session_disconnected_lkd itself) -/
+def tlsTail (c : Ctx) : Ctx :=
+  match c.s.dtlsEvent with
+  | some e =>
+    let c := if e ≠ .closed then c.emit (.ev e) else c
+    if e = .error || e = .closed then (c.disconnected .tls).setRet (-1) else c
+  | none => c
+
+/-- coap_tls_write on a session whose GnuTLS handshake is complete: gnutls_record_send and the switch over its result;
+ret 1 = everything written, 0 = nothing (EAGAIN), -1 = error -/
+def tlsRecordSend (m : QMsg) (ack : Bool) (c : Ctx) : Ctx :=
+  let c := c.emit (.tx true m.strmView (m.snOf ack))
+  let c := c.upd fun s => { s with dtlsEvent := none }
+  let c := c.popSnd
+  let c :=
+    match c.sndR with
+    | .ok => c.setRet 1
+    | .again => c.setRet 0
+    | .push => (c.upd fun s => { s with dtlsEvent := some .closed }).setRet (-1)
+    | .fatalrx => (c.upd fun s => { s with sentAlert := true, dtlsEvent := some .closed }).setRet (-1)
+    | .err => c.setRet (-1)
+    | .part => (c.emit (.unmodelled "partial-write")).setRet 1
+  c.tlsTail
+
+/-- coap_session_establish on a reliable session = coap_session_send_csm: state CSM, the CSM goes out through
+coap_session_send_pdu; anything but a complete write disconnects.  It is only ever called right after
+do_gnutls_handshake reported success (g_env->established is set), so the write is the established branch of
+coap_tls_write; M says `!unmodelled` otherwise (this also cuts the recursion coap_tls_write -> l_establish ->
+coap_session_send_csm -> coap_tls_write). -/
+def sendCsm (c : Ctx) : Ctx :=
+  let c := c.upd fun s => { s with state := .csm }
+  let m : QMsg := { sn := c.s.next, con := true, code := 225, mid := 0, tok := "-" }
+  let c := c.upd fun s => { s with next := s.next + 1 }
+  let c := if c.s.est then c.tlsRecordSend m false else (c.emit (.unmodelled "csm-before-established")).setRet (-1)
+  if c.ret ≠ 1 then c.disconnected .undeliv else c
+
+/-- coap_tls_write (the harness logs the PDU at entry) -/
+def tlsWrite (m : QMsg) (ack : Bool) (c : Ctx) : Ctx :=
+  if c.s.est then c.tlsRecordSend m ack
+  else
+    let c := c.emit (.tx true m.strmView (m.snOf ack))
+    let c := c.upd fun s => { s with dtlsEvent := none }
+    let c := c.doHandshake
+    let c := if c.ret = 1 then ((c.emit (.ev .connected)).sendCsm).setRet 0 else c.setRet (-1)
+    c.tlsTail
+
 /-- coap_session_send_pdu: `lfunc[COAP_LAYER_SESSION].l_write` = coap_netif_dgrm_write (UDP) / coap_dtls_send (DTLS) /
 coap_tls_write (TLS) — coap_layers.c -/
 def sessionSendPdu (m : QMsg) (ack : Bool) (c : Ctx) : Ctx :=
   match c.s.proto with
   | .udp => (c.emit (.tx false (m.view ack) (m.snOf ack))).setRet 1
-  | _ => dtlsSend m ack c
+  | .dtls => dtlsSend m ack c
+  | .tls => tlsWrite m ack c
 
 /-- coap_send_pdu -/
 def sendPdu (m : QMsg) (ack fromNode : Bool) (c : Ctx) : Ctx :=
@@ -316,9 +399,14 @@ def flushLoop : Nat → Ctx → Ctx
       if c.s.state ≠ .established then c else
       if q.con && c.s.proto ≠ .tls && c.s.conActive ≥ NSTART then c else
       let c := c.flushOne q rest
-      if c.ret < 0 then c else flushLoop fuel c
+      if c.s.proto = .tls then
+        -- reliable: anything but a complete write puts the node back at the head of the queue and stops
+        if c.ret ≤ 0 then c.upd fun s => { s with delayq := q :: s.delayq } else flushLoop fuel c
+      else if c.ret < 0 then c else flushLoop fuel c
 
 def sessionConnected (c : Ctx) : Ctx :=
+  -- leaving CSM state: COAP_EVENT_SESSION_CONNECTED, doing_first cleared
+  let c := if c.s.state = .csm then (c.emit (.evTcp .sessConnected)).upd fun s => { s with doingFirst := false } else c
   let c := c.upd fun s => { s with state := .established }
   flushLoop (c.s.delayq.length + 1) c
 
@@ -428,6 +516,8 @@ def recvEst (c : Ctx) : Ctx :=
   | .fatalrx => (c.upd fun s => { s with sentAlert := true, dtlsEvent := some .closed }).receiveTail
   | .warn => (c.upd fun s => { s with dtlsEvent := some .error }).receiveTail
   | .err => c.receiveTail
+  | .again => c.receiveTail
+  | .pull => c.receiveTail
 
 /-- coap_dtls_receive, handshake branch.  "Do the handshake again in case of internal timeout" happens only if GnuTLS
 left the datagram unread, which is the oracle's state — visible here as a second handshake answer inside the event -/
@@ -445,6 +535,87 @@ def recvHs (c : Ctx) : Ctx :=
 def dtlsReceive (c : Ctx) : Ctx :=
   let c := c.upd fun s => { s with dtlsEvent := none }
   if c.s.est then c.recvEst else c.recvHs
+
+/-! ### TLS over TCP: establish, read, dispatch -/
+
+/-- coap_tls_establish (+ coap_tls_new_client_session / coap_tls_new_server_session: the result of the first
+do_gnutls_handshake is acted on only when it is success) -/
+def tlsEstablish (c : Ctx) : Ctx :=
+  let c := c.upd fun s => { s with state := .handshake }
+  let c := c.popEnv
+  if !c.flag then c.disconnected .tlslayer else
+  let c := c.upd fun s => { s with tls := true }
+  let c := c.doHandshake
+  if c.ret = 1 then (c.emit (.ev .connected)).sendCsm else c
+
+/-- coap_dispatch on a reliable session (every PDU is CON, nothing is acknowledged): handle_signaling for a CSM,
+handle_request with the harness' resource (2.05), handle_response -/
+def dispatchStrm (v : View) (c : Ctx) : Ctx :=
+  if v.code = 225 then (if c.s.state = .csm then c.sessionConnected else c)
+  else if v.code ≥ 224 then c.emit (.unmodelled "signal")
+  else if v.code = 0 then c.emit (.unmodelled "empty")
+  else if v.code < 32 then
+    let c := c.emit (.req v.tok v.payload)
+    let m : QMsg := { sn := c.s.next, con := true, code := 69, mid := 0, tok := v.tok }
+    -- coap_send_internal on a reliable session = coap_send_pdu (nothing is kept for retransmission); handle_request
+    -- ignores its result (`sendfail` is what the APPLICATION's coap_send returns)
+    (c.upd fun s => { s with next := s.next + 1 }).sendPdu m false false
+  else if v.code ≥ 64 then c.emit (.rsp v.tok v.code)
+  else c.emit (.unmodelled "code")
+
+/-- first half of coap_tls_read: the handshake step while GnuTLS is not established -/
+def tlsReadHs (c : Ctx) : Ctx :=
+  if !c.s.est && !c.s.sentAlert then
+    let c := c.doHandshake
+    if c.ret = 1 then ((c.emit (.ev .connected)).sendCsm).setRet 0 else c
+  else c.setRet (-1)
+
+/-- coap_read_session after coap_tls_read returned: a negative count disconnects (NOT_DELIVERABLE) -/
+def readEnd (c : Ctx) : Ctx :=
+  let c := c.tlsTail
+  if c.ret < 0 then c.disconnected .undeliv else c
+
+/-- coap_read_session on a TLS session: coap_tls_read, then the message the record carried is dispatched -/
+def strmRead (c : Ctx) : Ctx :=
+  if !c.s.tls then c.disconnected .undeliv else        -- no TLS object: ENXIO, -1
+  let c := c.upd fun s => { s with dtlsEvent := none }
+  let c := c.tlsReadHs
+  if c.s.state ≠ .none && c.s.est then
+    let c := c.popRec
+    match c.recR with
+    | .data v =>
+      let c := (c.setRet 1).tlsTail
+      if c.ret > 0 then c.dispatchStrm v else if c.ret < 0 then c.disconnected .undeliv else c
+    | .junk => c.emit (.unmodelled "stream-fragment")
+    | .zero => ((c.upd fun s => { s with dtlsEvent := some .closed }).setRet 0).readEnd
+    | .again => (c.setRet 0).readEnd
+    | .pull => ((c.upd fun s => { s with dtlsEvent := some .error }).setRet (-1)).readEnd
+    | .fatalrx => ((c.upd fun s => { s with sentAlert := true, dtlsEvent := some .closed }).setRet (-1)).readEnd
+    | .warn => ((c.upd fun s => { s with dtlsEvent := some .error }).setRet (-1)).readEnd
+    | .err => (c.setRet (-1)).readEnd
+  else c.readEnd
+
+/-- coap_connect_session: the non-blocking connect() finished -/
+def tcpConnect (ok : Bool) (c : Ctx) : Ctx :=
+  if ok then (c.emit (.evTcp .connected)).tlsEstablish
+  else (c.emit (.evTcp .failed)).disconnected .undeliv
+
+/-- coap_write_session: only a partially written message waits for it -/
+def strmWrite (c : Ctx) : Ctx :=
+  if c.s.delayq.isEmpty then c else c.emit (.unmodelled "write-session")
+
+/-- coap_send_lkd on a reliable client session: refused when the socket is closed; coap_client_delay_first (`waited` =
+the call had to wait; doing_first still set afterwards = its 5 s passed); the type is forced to CON -/
+def appSendStrm (waited : Bool) (code mid : Nat) (tok : String) (c : Ctx) : Ctx :=
+  if !waited && c.s.typ = .client && !c.s.sockOpen then c.emit .sendfail else
+  if !waited && c.s.doingFirst then c.emit (.unmodelled "doing-first") else
+  let c :=
+    if c.s.doingFirst then
+      let c := c.upd fun s => { s with doingFirst := false }
+      if c.s.state = .csm then c.emit (.unmodelled "csm-timeout") else c
+    else c
+  let m : QMsg := { sn := c.s.next, con := true, code := code, mid := mid, tok := tok }
+  (c.upd fun s => { s with next := s.next + 1 }).sendInternal m false
 
 /-- coap_dtls_handle_timeout (called by the I/O loop for a DTLS session in HANDSHAKE state that has a TLS object) -/
 def tlsTimeout (c : Ctx) : Ctx :=
@@ -529,6 +700,10 @@ inductive Ev where
   | appDisconnect (r : Nack)               -- coap_session_disconnected()
   | release                                -- the application releases its reference
   | del                                    -- server session reclaimed / context freed
+  | tcpConnect (ok : Bool)                 -- TLS: the non-blocking connect() finished
+  | strmRead                               -- TLS: the socket is readable
+  | strmWrite                              -- TLS: the socket is writable again
+  | appSendStrm (waited : Bool) (code mid : Nat) (tok : String)   -- TLS: coap_send
   deriving DecidableEq, Repr
 
 open Ctx in
@@ -544,6 +719,10 @@ def Sess.stepCtx (s : Sess) (e : Ev) (orc : List Orc) : Ctx :=
   | .appDisconnect r => c.disconnected r
   | .release => (c.upd fun s => { s with appRef := false }).maybeFree
   | .del => (c.emit .evDel).sessionFree
+  | .tcpConnect ok => (c.tcpConnect ok).maybeFree
+  | .strmRead => c.strmRead.maybeFree
+  | .strmWrite => c.strmWrite.maybeFree
+  | .appSendStrm w code mid tok => c.appSendStrm w code mid tok
 
 /-- … returns the session and the outputs -/
 def Sess.step (s : Sess) (e : Ev) (orc : List Orc) : Sess × List Out :=
@@ -566,6 +745,17 @@ def newClientCtx (orc : List Orc) : Ctx :=
 def newClient (orc : List Orc) : Sess × List Out :=
   let c := newClientCtx orc
   (c.s, c.out)
+
+/-- coap_new_client_session_psk2 for TLS (coap_session_check_connect): `now` = connect() completed at once, the session
+goes straight to coap_tls_establish; else CONNECTING with doing_first set -/
+def newClientTlsCtx (now : Bool) (orc : List Orc) : Ctx :=
+  let c : Ctx := { s := { proto := .tls, typ := .client }, orc := orc }
+  if now then c.tlsEstablish else c.upd fun s => { s with state := .connecting, doingFirst := true }
+
+/-- coap_new_server_session for an accepted TCP connection at a TLS endpoint -/
+def acceptCtx (orc : List Orc) : Ctx :=
+  let c : Ctx := { s := { proto := .tls, typ := .server, appRef := false, state := .connecting }, orc := orc }
+  ((c.emit (.evTcp .connected)).emit .evNew).tlsEstablish
 
 /-- the ClientHello pre-filter of coap_endpoint_get_session for a DTLS endpoint: only a ClientHello creates a session -/
 def prefilterCreates : DgKind → Bool
